@@ -155,6 +155,132 @@ let c05 = function
         | _ -> "FAIL key=verdict calculate_lookahead_dfas disagrees with the per-non-terminal decisions"))
   | _ -> "FAIL malformed case"
 
+(* which property is being decided (some case kinds are read differently per property) *)
+let prop = try Sys.getenv "PV_PROP" with Not_found -> ""
+
+(* classification only (used for known-finding keys): does some non-terminal derive itself, A =>+ A ? *)
+let cyclic (g : Cfg.cfg) : bool =
+  let nts = Stdlib.List.sort_uniq compare (Stdlib.List.map int_of_n (Cfg.nts g)) in
+  let nullable = Hashtbl.create 16 in
+  let changed = ref true in
+  while !changed do
+    changed := false;
+    Stdlib.List.iter (fun p ->
+        let l = int_of_n p.Cfg.lhs in
+        if not (Hashtbl.mem nullable l) &&
+           Stdlib.List.for_all (function Cfg.NT a -> Hashtbl.mem nullable (int_of_n a) | Cfg.T _ -> false) p.Cfg.rhs
+        then (Hashtbl.replace nullable l (); changed := true)) g.Cfg.prods
+  done;
+  let isnull = function Cfg.NT a -> Hashtbl.mem nullable (int_of_n a) | Cfg.T _ -> false in
+  let edges = Stdlib.List.concat_map (fun p ->
+      let r = p.Cfg.rhs in
+      Stdlib.List.concat (Stdlib.List.mapi (fun i s -> match s with
+          | Cfg.NT b when Stdlib.List.for_all isnull (Stdlib.List.filteri (fun j _ -> j <> i) r) -> [(int_of_n p.Cfg.lhs, int_of_n b)]
+          | _ -> []) r)) g.Cfg.prods in
+  let reach = Hashtbl.create 16 in
+  Stdlib.List.iter (fun e -> Hashtbl.replace reach e ()) edges;
+  let ch = ref true in
+  while !ch do
+    ch := false;
+    Stdlib.List.iter (fun a -> Stdlib.List.iter (fun b -> Stdlib.List.iter (fun c ->
+        if Hashtbl.mem reach (a, b) && Hashtbl.mem reach (b, c) && not (Hashtbl.mem reach (a, c)) then (Hashtbl.replace reach (a, c) (); ch := true)) nts) nts) nts
+  done;
+  Stdlib.List.exists (fun a -> Hashtbl.mem reach (a, a)) nts
+
+(* C03 / C04 *)
+let lr_table_of_sx = function
+  | L [L acts; L sts; L prs; st; nterm; nnt] ->
+    let act = function
+      | L [A "s"; n] -> LRParser.Shift (n_of_int (int_of_sx n))
+      | L [A "r"; nt; p] -> LRParser.Reduce (n_of_int (int_of_sx nt), n_of_int (int_of_sx p))
+      | L [A "a"] -> LRParser.Accept
+      | _ -> failwith "action" in
+    let pairs l = Stdlib.List.map (fun e -> match ints_of_sx e with [a; b] -> (n_of_int a, n_of_int b) | _ -> failwith "pair") (list_of_sx l) in
+    let state = function L [a; g] -> { LRParser.st_actions = pairs a; st_gotos = pairs g } | _ -> failwith "state" in
+    let prod e = match ints_of_sx e with [l; n] -> { LRParser.lp_lhs = n_of_int l; lp_len = nat_of_int n } | _ -> failwith "prod" in
+    { LRParser.lr_actions = Stdlib.List.map act acts; lr_states = Stdlib.List.map state sts; lr_prods = Stdlib.List.map prod prs;
+      lr_start = n_of_int (int_of_sx st); lr_nterm = n_of_int (int_of_sx nterm); lr_nnt = n_of_int (int_of_sx nnt) }
+  | _ -> failwith "lr table"
+
+(* tree -> event list in the harness notation, significant tokens only *)
+let rec events_of_tree = function
+  | Cfg.Leaf t -> [Printf.sprintf "t%d" (int_of_n t)]
+  | Cfg.Node (p, cs) -> (Printf.sprintf "o%d" (int_of_n p.Cfg.lhs)) :: Stdlib.List.concat_map events_of_tree cs @ ["c"]
+
+let events_of_sx (evs : Sexp.t) : string list =
+  let l = Stdlib.List.filter_map (function
+      | L [A "o"; n] -> Some (Printf.sprintf "o%s" (match n with A a -> a | _ -> "?"))
+      | L [A "c"] -> Some "c"
+      | L (A "t" :: ty :: _) -> let t = int_of_sx ty in if t >= 5 then Some (Printf.sprintf "t%d" t) else None
+      | _ -> None) (list_of_sx evs) in
+  (* strip a synthetic root (name not in the non-terminal table) *)
+  match l with
+  | "o-1" :: rest when rest <> [] && Stdlib.List.nth rest (Stdlib.List.length rest - 1) = "c" ->
+    Stdlib.List.filteri (fun i _ -> i < Stdlib.List.length rest - 1) rest
+  | _ -> l
+
+let c03 = function
+  | [g; L [A why]] ->
+    let g0 = cfg_of_sx g in
+    (match why with
+     | "panic" ->
+       if cyclic g0 then
+         (if prop = "C03" then "OK 0 outside-quantifier:cyclic-grammar-panics"
+          else "FAIL key=table-construction-panic-cyclic-grammar LALR(1) table construction panicked on a cyclic (hence non-LALR(1)) grammar instead of rejecting it")
+       else "FAIL key=table-construction-panic grammar checks / LALR(1) table construction panicked"
+     | "rejected-conflict" -> "OK 0 rejected-conflict"
+     | _ -> "OK 0 " ^ why)
+  | [g; L [A "built"; g2; tb; nconf; L runs]] ->
+    let g0 = cfg_of_sx g and g2' = cfg_of_sx g2 and tb' = lr_table_of_sx tb and nconf' = int_of_sx nconf in
+    let nstates = Stdlib.List.length tb'.LRParser.lr_states in
+    let safe = LRValidate.lr_validate (nat_of_int (4 * nstates + 50)) g2' tb' in
+    let problems = ref [] in
+    let nontrivial = ref 0 in
+    Stdlib.List.iter (fun r ->
+        match r with
+        | L [toks; A "panic"] -> problems := ("parser-panic", Sexp.to_string toks) :: !problems
+        | L (toks :: verdict :: rest) ->
+          let w = ns_of_sx toks in
+          let inlang = member g0 w in
+          let real_ok = (verdict = A "ok") in
+          let fuel = nat_of_int ((Stdlib.List.length w + 2) * (nstates + 2) * 4 + 20) in
+          let m = LRParser.lr_run fuel tb' w in
+          if verdict = L [A "err"; L [A "depth"]] || verdict = L [A "err"; L [A "budget"]] then begin
+            (* stack grew beyond 4000 entries on an input of a few tokens: the parser keeps reducing without consuming *)
+            if m = LRParser.OutOfFuel then problems := ((if cyclic g0 then "lr-parser-does-not-terminate-cyclic-grammar" else "lr-parser-does-not-terminate"), Sexp.to_string toks) :: !problems
+            else problems := ("depth-error-differs-from-model", Sexp.to_string toks) :: !problems
+          end
+          else if real_ok && not inlang then problems := ("accepts-non-sentence", Sexp.to_string toks) :: !problems
+          else if (not real_ok) && inlang && nconf' = 0 then problems := ("rejects-sentence", Sexp.to_string toks) :: !problems
+          else begin
+            (match m, real_ok with
+             | LRParser.Accepted (reds, forest), true ->
+               let real_reds = (match rest with L acts :: _ -> Stdlib.List.map (fun a -> match ints_of_sx a with [p; _] -> p | _ -> -1) acts | _ -> []) in
+               if Stdlib.List.map int_of_n reds <> real_reds then problems := ("reductions-differ-from-model", Sexp.to_string toks) :: !problems
+               else begin
+                 let real_evs = (match rest with [_; evs] -> events_of_sx evs | _ -> []) in
+                 let model_evs = Stdlib.List.concat_map events_of_tree forest in
+                 if real_evs <> model_evs then problems := ("tree-differs-from-model", Sexp.to_string toks) :: !problems
+                 else if Stdlib.List.length w >= 2 then incr nontrivial
+               end
+             | LRParser.Rejected, false -> if Stdlib.List.length w >= 2 then incr nontrivial
+             | LRParser.Accepted _, false | LRParser.Rejected, true -> problems := ("verdict-differs-from-model", Sexp.to_string toks) :: !problems
+             | LRParser.OutOfFuel, _ -> ()
+             | (LRParser.InternalErr _ | LRParser.Panic _), false -> ()
+             | (LRParser.InternalErr _ | LRParser.Panic _), true -> problems := ("verdict-differs-from-model", Sexp.to_string toks) :: !problems)
+          end
+        | _ -> problems := ("malformed-run", "") :: !problems) runs;
+    let start_rec = Stdlib.List.exists (fun p -> Stdlib.List.mem (Cfg.NT g0.Cfg.start) p.Cfg.rhs) g0.Cfg.prods in
+    (* C03 quantifies over grammars accepted WITHOUT resolved conflicts: with conflicts only soundness counts there *)
+    if prop = "C03" && nconf' > 0 then
+      problems := Stdlib.List.filter (fun (k, _) -> k = "accepts-non-sentence" || k = "parser-panic") !problems;
+    (match Stdlib.List.rev !problems with
+     | [] ->
+       if safe then Printf.sprintf "OK %d %s%s" (if !nontrivial > 0 then 1 else 0) (if nconf' = 0 then "conflict-free" else "resolved-conflicts") (if start_rec then " recursive-start" else "")
+       else Printf.sprintf "FAIL key=unsafe-table%s the LR safety validator rejects the generated table; no wrongly accepted input among the %d runs (no-failing-input-found)" (if start_rec then "-recursive-start" else "") (Stdlib.List.length runs)
+     | (k, w) :: _ -> Printf.sprintf "FAIL key=%s%s on input %s (validator: %s, %d problem runs)" k (if start_rec && k = "accepts-non-sentence" then "-recursive-start" else "") w (if safe then "table safe" else "table UNSAFE") (Stdlib.List.length !problems))
+  | _ -> "FAIL malformed case"
+
 (* C12 *)
 let c12 = function
   | [_; A "panic"] -> "FAIL key=panic augment_grammar panicked"
@@ -218,6 +344,7 @@ let dispatch (sx : Sexp.t) : string =
   | L (A "eval" :: args) -> c08 args
   | L (A "aug" :: args) -> c12 args
   | L (A "wf" :: args) -> c11 args
+  | L (A "lr" :: args) -> c03 args
   | L (A "first" :: args) -> c06_first args
   | L (A "follow" :: args) -> c06_follow args
   | L (A "dec" :: args) -> c05 args
